@@ -113,6 +113,8 @@ add("F100", "C13", "fixed", "'2147483648 to hex' printed 0x7FFFFFFF: based numbe
     {"sub": "based", "case": {"shape": {"Convert": [src(2147483648), True, 0]}}}, commit="cd1480b")
 add("F101", "C13", "fixed", "'0xAF00' was 0 XAF followed by 00: the money lexer claimed '<digit><currency letters>' inside hexadecimal literals",
     {"sub": "based", "case": {"shape": {"Literal": src(44800, 16)}}}, commit="882a73d")
+add("F102", "C13", "fixed", "'5-0xAF' and '0x10+0xAF' were 'Unknown calculation': with a sign glued in front, the money lexer read '-0' + 'xaf' as minus zero XAF (the earlier repair looked at the position of the sign, not of the first digit)",
+    {"sub": "based", "case": {"shape": {"Arith": [src(16, 16), 1, src(175, 16)]}, "glue": 3}}, commit="8cead20")
 add("F100b", "C14", "fixed", "'1/1/2040 as unix' printed 2147483647: raw timestamps were printed through 'as i32'",
     {"sub": "unix", "case": {"shape": {"DateAsUnix": [{"y": 2040, "m": 1, "d": 1, "spell": {"Slash": [False, False]}}, 0, 0]}, "default_tz": None}}, commit="cd1480b")
 
